@@ -63,13 +63,13 @@ theorem KidsOK.splice {v : Value} {l r nk ab : List HTree} {T : HTree}
     refine Sorted.append_iff.mpr ⟨sl, Sorted.append_iff.mpr ⟨snk, sr, ?_⟩, ?_⟩
     · intro x hx y hy
       have := hr2 y hy
-      have h2' := rank_le_two x.value.category
+      have h2' := fi_rank_le_two x.value.category
       simp only [rankOf] at this ⊢
       omega
     · intro x hx y hy
       rw [List.mem_append] at hy
       rcases hy with hy | hy
-      · have h2' := rank_le_two x.value.category
+      · have h2' := fi_rank_le_two x.value.category
         simp only [rankOf, hnk y hy, Category.rank]
         exact h2'
       · exact cross x hx y (by simp [hy])
@@ -77,7 +77,7 @@ theorem KidsOK.splice {v : Value} {l r nk ab : List HTree} {T : HTree}
 namespace Forest
 
 /-- Splicing out a run of leaf children at the front of a child list. -/
-theorem foldl_spliceOut_leaves (path : List Frame) (fr : Frame) (nk : List HTree) :
+theorem foldl_spliceOut_leaves (path : List ZipFrame) (fr : ZipFrame) (nk : List HTree) :
     ∀ (ab : List HTree) (g : Forest), g.allHandles.Nodup →
       g.roots = plug (path ++ [fr]) (ab ++ nk) → (∀ k ∈ ab, k.kids = []) →
       ab.foldl (fun acc k => acc.spliceOut k.handle) g = { g with roots := plug (path ++ [fr]) nk }
@@ -97,15 +97,15 @@ theorem foldl_spliceOut_leaves (path : List Frame) (fr : Frame) (nk : List HTree
     rw [foldl_spliceOut_leaves path fr nk ab _ nd' rfl (fun k' hk' => hleaf k' (by simp [hk']))]
 
 /-- `remove_element` at a located non-root element. -/
-theorem removeElement_of_loc {f : Forest} (hi : f.Inv) {node : Nat} {init : List Frame} {fr : Frame}
+theorem removeElement_of_loc {f : Forest} (hi : f.Inv) {node : Nat} {init : List ZipFrame} {fr : ZipFrame}
     {l : List HTree} {T : HTree} {r : List HTree} (lc : Loc f.roots node (init ++ [fr]) l T r) :
     f.removeElement node =
-      { f with roots := plug (init ++ [fr]) (l ++ T.kids.dropWhile abn ++ r) } := by
+      { f with roots := plug (init ++ [fr]) (l ++ T.kids.dropWhile fiAbn ++ r) } := by
   have nd := hi.nodup
   have hTvalid := hi.validTree_of_loc lc
   rw [validTree_eq, Bool.and_eq_true] at hTvalid
-  have hsplit : T.kids.takeWhile abn ++ T.kids.dropWhile abn = T.kids := List.takeWhile_append_dropWhile
-  have hleaf : ∀ k ∈ T.kids.takeWhile abn, k.kids = [] := by
+  have hsplit : T.kids.takeWhile fiAbn ++ T.kids.dropWhile fiAbn = T.kids := List.takeWhile_append_dropWhile
+  have hleaf : ∀ k ∈ T.kids.takeWhile fiAbn, k.kids = [] := by
     intro k hk
     have hkm : k ∈ T.kids := List.takeWhile_subset _ hk
     have hkv : validTree (!f.everOff) k = true := by
@@ -114,30 +114,30 @@ theorem removeElement_of_loc {f : Forest} (hi : f.Inv) {node : Nat} {init : List
       rw [hab] at this
       simp only [validList_append, validList_cons, Bool.and_eq_true] at this
       exact this.2.1
-    have hka : abn k = true := by
-      have := List.all_takeWhile (l := T.kids) (p := abn)
+    have hka : fiAbn k = true := by
+      have := List.all_takeWhile (l := T.kids) (p := fiAbn)
       rw [List.all_eq_true] at this
       exact this k hk
-    have hkc : k.value.category ≠ .normal := by simpa [abn] using hka
-    apply kids_nil_of_valid hkv <;>
+    have hkc : k.value.category ≠ .normal := by simpa [fiAbn] using hka
+    apply fi_kids_nil_of_valid hkv <;>
       cases hv : k.value <;> simp_all [Value.isElement, Value.isDocument, Value.category]
   unfold removeElement
   rw [get?_of_loc lc nd, abn_eq_not_isNormal]
   simp only
-  have hroots : f.roots = plug ((init ++ [fr]) ++ [⟨l, node, T.value, r⟩]) (T.kids.takeWhile abn ++ T.kids.dropWhile abn) := by
+  have hroots : f.roots = plug ((init ++ [fr]) ++ [⟨l, node, T.value, r⟩]) (T.kids.takeWhile fiAbn ++ T.kids.dropWhile fiAbn) := by
     rw [plug_append, hsplit, lc.eq, ← lc.hk]
     simp [node_eta]
   rw [foldl_spliceOut_leaves (init ++ [fr]) ⟨l, node, T.value, r⟩ _ _ f nd hroots hleaf]
-  have nd' : ({ f with roots := plug ((init ++ [fr]) ++ [⟨l, node, T.value, r⟩]) (T.kids.dropWhile abn) } : Forest).allHandles.Nodup := by
+  have nd' : ({ f with roots := plug ((init ++ [fr]) ++ [⟨l, node, T.value, r⟩]) (T.kids.dropWhile fiAbn) } : Forest).allHandles.Nodup := by
     refine List.Nodup.sublist ?_ nd
-    have key : ∀ (pth : List Frame) (X Y : List HTree), (handlesList X).Sublist (handlesList Y) →
+    have key : ∀ (pth : List ZipFrame) (X Y : List HTree), (handlesList X).Sublist (handlesList Y) →
         (handlesList (plug pth X)).Sublist (handlesList (plug pth Y)) := by
       intro pth
       induction pth with
       | nil => intro X Y h; exact h
       | cons fr0 rest ih =>
         intro X Y h
-        simp only [plug_cons, fi_handlesList_append, handlesList_cons, handles_node]
+        simp only [plug_cons, fi_handlesList_append, fi_handlesList_cons, fi_handles_node]
         exact List.Sublist.append_left (List.Sublist.append_right (List.Sublist.cons_cons _ (ih X Y h)) _) _
     unfold allHandles
     simp only
@@ -145,8 +145,8 @@ theorem removeElement_of_loc {f : Forest} (hi : f.Inv) {node : Nat} {init : List
     apply key
     rw [fi_handlesList_append]
     exact List.sublist_append_right _ _
-  have lcT : Loc ({ f with roots := plug ((init ++ [fr]) ++ [⟨l, node, T.value, r⟩]) (T.kids.dropWhile abn) } : Forest).roots
-      node (init ++ [fr]) l (.node node T.value (T.kids.dropWhile abn)) r :=
+  have lcT : Loc ({ f with roots := plug ((init ++ [fr]) ++ [⟨l, node, T.value, r⟩]) (T.kids.dropWhile fiAbn) } : Forest).roots
+      node (init ++ [fr]) l (.node node T.value (T.kids.dropWhile fiAbn)) r :=
     ⟨by simp [plug_append], rfl⟩
   rw [spliceOut_of_loc_ne lcT (by simp) nd']
   simp
@@ -187,7 +187,7 @@ theorem fi_removeConsolidate_none_left (g : Forest) (n : Option Nat) :
   · rfl
   · cases n <;> rfl
 
-theorem removeConsolidate_none_right (g : Forest) (p : Option Nat) :
+theorem fi_removeConsolidate_none_right (g : Forest) (p : Option Nat) :
     g.removeConsolidate p none = (g, false) := by
   unfold removeConsolidate
   split
@@ -197,7 +197,7 @@ theorem removeConsolidate_none_right (g : Forest) (p : Option Nat) :
 /-- Second half of `element_unwrap` (strict mode): consolidate `Lk` with its right neighbour, when
     everything to the left of `Lk` (inclusive) and everything to its right is in order. -/
 theorem fixRight {g : Forest} (nd : g.allHandles.Nodup) (hcons : g.consolidation = true)
-    {init : List Frame} {fr : Frame} {a : List HTree} {Lk : HTree} {r : List HTree}
+    {init : List ZipFrame} {fr : ZipFrame} {a : List HTree} {Lk : HTree} {r : List HTree}
     (hr : g.roots = plug (init ++ [fr]) (a ++ Lk :: r))
     (hstruct : KidsOK false fr.v (a ++ Lk :: r)) (hvalid : validList true (a ++ Lk :: r) = true)
     (hLn : Lk.value.category = .normal)
@@ -219,7 +219,7 @@ theorem fixRight {g : Forest} (nd : g.allHandles.Nodup) (hcons : g.consolidation
   cases r with
   | nil =>
     apply noop
-    · rw [nextSibling_of_loc_snoc lcL nd]; simp [removeConsolidate_none_right]
+    · rw [nextSibling_of_loc_snoc lcL nd]; simp [fi_removeConsolidate_none_right]
     · simpa using htl
   | cons Nr r0 =>
     have lcN : Loc g.roots Nr.handle (init ++ [fr]) (a ++ [Lk]) Nr r0 := ⟨by rw [hr]; simp, rfl⟩
@@ -249,15 +249,15 @@ theorem fixRight {g : Forest} (nd : g.allHandles.Nodup) (hcons : g.consolidation
       have hroots : g.roots = plug (init ++ [fr]) (a ++ Lk :: ([] ++ Nr :: r0)) := by rw [hr]; simp
       rw [enext, removeConsolidate_merge nd hcons hroots hLv hNv hNkids]
       refine ⟨a ++ Lk.setValue (.text (ls ++ ns)) :: r0, [Nr.handle], by simp, ?_, ?_, ?_⟩
-      · simp only [fi_handlesList_append, handlesList_cons, handles_setValue, fi_handles_eq Nr, hNkids,
-          handlesList_nil, List.append_nil, List.append_assoc, List.cons_append, List.nil_append]
+      · simp only [fi_handlesList_append, fi_handlesList_cons, handles_setValue, fi_handles_eq Nr, hNkids,
+          fi_handlesList_nil, List.append_nil, List.append_assoc, List.cons_append, List.nil_append]
         refine List.Perm.append_left _ (List.Perm.append_left _ ?_)
         exact List.perm_append_comm (l₁ := handlesList r0) (l₂ := [Nr.handle])
       · refine (kidsOK_iff _ _ _).mpr (KidsOK.strengthen ?_ ?_)
         · have h1 : KidsOK false fr.v ((a ++ [Lk]) ++ Nr :: r0) := by simpa using hstruct
           have h2 : KidsOK false fr.v (a ++ Lk :: r0) := by simpa using h1.remove (fun hs => by cases hs)
-          exact h2.sameKind (by rw [setValue_value, hLv]; exact ⟨rfl, rfl, rfl, rfl⟩)
-        · simp only [textFlags_append, textFlags_cons, setValue_value, noAdjB_append, noAdjB_cons,
+          exact h2.sameKind (by rw [fi_setValue_value, hLv]; exact ⟨rfl, rfl, rfl, rfl⟩)
+        · simp only [textFlags_append, textFlags_cons, fi_setValue_value, noAdjB_append, noAdjB_cons,
             Bool.and_eq_true, Bool.not_eq_true']
           simp only [hLt, hNt, Bool.true_and, Bool.and_true] at htl' htr'
           refine ⟨⟨htl'.1, ?_, htr'.2⟩, ?_⟩
@@ -282,7 +282,7 @@ theorem fixRight {g : Forest} (nd : g.allHandles.Nodup) (hcons : g.consolidation
             · left
               exact textOf_none_of_value (value?_of_loc lcL nd) (by simpa using hLt)
           rw [removeConsolidate_noop this]
-        · rw [removeConsolidate_none_right]
+        · rw [fi_removeConsolidate_none_right]
       · simp only [textFlags_append, textFlags_cons, noAdjB_append, noAdjB_cons, Bool.and_eq_true,
           Bool.not_eq_true']
         refine ⟨⟨htl'.1, ⟨?_, htr'.1, htr'.2⟩⟩, ?_⟩
@@ -299,7 +299,7 @@ theorem fixRight {g : Forest} (nd : g.allHandles.Nodup) (hcons : g.consolidation
 /-- First half of `element_unwrap` (strict mode): consolidate the first unwrapped child `F` with
     its new left neighbour. -/
 theorem fixLeft {g : Forest} (nd : g.allHandles.Nodup) (hcons : g.consolidation = true)
-    {init : List Frame} {fr : Frame} {l : List HTree} {F : HTree} {q : List HTree}
+    {init : List ZipFrame} {fr : ZipFrame} {l : List HTree} {F : HTree} {q : List HTree}
     (hr : g.roots = plug (init ++ [fr]) (l ++ F :: q)) (hFn : F.value.category = .normal)
     (hFk : F.value.isText = true → F.kids = []) :
     (∃ l0 Pl ps fs, l = l0 ++ [Pl] ∧ Pl.value = .text ps ∧ F.value = .text fs ∧
